@@ -1065,11 +1065,11 @@ type 'vS pick_info = ((pkg0 * 'vS) list * (pkg0 * z) list) * nat
 val undecided_positive : ('a1, 'a2) psol -> (pkg0 * 'a1) list
 
 type ('vS, 'vr) result =
-  (('vS, 'vr) outcome * ('vS, 'vr) state) * 'vS pick_info list
+  ((('vS, 'vr) outcome * ('vS, 'vr) state) * 'vS pick_info list) * nat
 
 val res_out :
-  'a1 pick_info list -> 'a3 res -> ('a3 -> ('a1, 'a2) result) -> ('a1, 'a2)
-  state -> ('a1, 'a2) result
+  'a1 pick_info list -> nat -> 'a3 res -> ('a3 -> ('a1, 'a2) result) -> ('a1,
+  'a2) state -> ('a1, 'a2) result
 
 val resolve_loop :
   ('a1, 'a2) vSOps -> ('a2 -> 'a2 -> bool) -> nat -> ('a1, 'a2) state -> pkg0
